@@ -23,12 +23,14 @@ static char *lastp; static int lastp_ok;
 static char *stable_mem; static int stable_on;
 static struct { char *p; int len; char copy[SAVELEN]; } saved[NSAVE]; static int nsaved;
 
+static void open_cleanup(void);   /* round4-open */
 static void cleanup(void)
 {
   if (bf)   { esl_buffer_Close(bf); bf = NULL; }
   if (g_fp) { fclose(g_fp); g_fp = NULL; }
   if (g_tmp_live) { unlink(g_tmp); g_tmp_live = 0; }
   if (g_data) { free(g_data); g_data = NULL; }
+  open_cleanup();   /* round4-open */
   g_n = 0; lastp = NULL; lastp_ok = 0; stable_on = 0; nsaved = 0;
 }
 /* A case that does not finish in 3 s is an endless loop in the library: die, so that the engine records a fault for it.
@@ -223,6 +225,112 @@ static int mem_op(void)
 }
 /* END round4-mem */
 
+/* BEGIN round4-open */
+/* fsopen name=<hex> env=<0|1|2> dirs=<hex> ps=<n> files=<hexpath>:<hexunit>[*rep][:<hexplain>],...   (protocol: lean/EaselModel/Buffer/OpenDriver.lean)
+ * A fresh directory tree OPEN_ROOT/c/w is built under the harness's working directory; the call is made with OPEN_ROOT/c/w
+ * as the current directory, the files are real files at their (relative) paths, the variable is really set/unset, and
+ * <filename> is an exactly-sized heap block. The buffer stays open for the operations that follow in the same case. */
+#include <sys/stat.h>
+#include <sys/types.h>
+#include <dirent.h>
+#define OPEN_ROOT "h_open_tree"
+#define OPEN_ENV  "H_BUFFER_PATH"
+static int open_live, open_homefd = -1;
+
+static void open_rmtree(const char *path)
+{
+  DIR *d = opendir(path); struct dirent *e; struct stat st; char sub[2048];
+  if (d == NULL) { unlink(path); return; }
+  while ((e = readdir(d)) != NULL) {
+    if (!strcmp(e->d_name, ".") || !strcmp(e->d_name, "..")) continue;
+    snprintf(sub, sizeof(sub), "%s/%s", path, e->d_name);
+    if (lstat(sub, &st) == 0 && S_ISDIR(st.st_mode)) open_rmtree(sub); else unlink(sub);
+  }
+  closedir(d);
+  rmdir(path);
+}
+static void open_cleanup(void)
+{
+  if (open_homefd >= 0) { if (fchdir(open_homefd) != 0) {} close(open_homefd); open_homefd = -1; }
+  unsetenv(OPEN_ENV);
+  if (open_live) { open_rmtree(OPEN_ROOT); open_live = 0; }
+}
+/* the path must stay inside OPEN_ROOT when resolved from OPEN_ROOT/c/w; creates the directories on the way. 1 = ok */
+static int open_mkparents(char *path)
+{
+  int depth = 2; char *s = path, *q;
+  if (path[0] == '/' || path[0] == 0) return 0;
+  while ((q = strchr(s, '/')) != NULL) {
+    *q = 0;
+    if      (!strcmp(s, ".."))               { if (--depth < 0) { *q = '/'; return 0; } }
+    else if (strcmp(s, ".") && s[0] != 0)    { depth++; mkdir(path, 0700); }
+    *q = '/';
+    s = q + 1;
+  }
+  return strcmp(s, "..") != 0 && strcmp(s, ".") != 0 && s[0] != 0;
+}
+static const char *open_modename(int m)
+{
+  switch (m) {
+  case eslBUFFER_UNSET: return "unset"; case eslBUFFER_STREAM: return "stream"; case eslBUFFER_CMDPIPE: return "pipe";
+  case eslBUFFER_FILE: return "file";   case eslBUFFER_ALLFILE: return "allfile"; case eslBUFFER_MMAP: return "mmap";
+  case eslBUFFER_STRING: return "string"; default: return "mode?";
+  }
+}
+static int open_op(void)
+{
+  char *files, *e, *next, *fn; unsigned char *dirs; int64_t fl, dl; int env, status, okfiles = 1;
+  if (strcmp(h_words[0], "fsopen") != 0) return 0;
+  if (!h_arg("name") || !h_arg("dirs") || !h_arg("files")) { h_out("bad-op"); return 1; }
+  cleanup();
+  open_rmtree(OPEN_ROOT);      /* left behind by a process that died inside a call */
+  if (mkdir(OPEN_ROOT, 0700) != 0) { h_out("bad-op"); return 1; }
+  open_live = 1;
+  if (mkdir(OPEN_ROOT "/c", 0700) != 0 || mkdir(OPEN_ROOT "/c/w", 0700) != 0) { h_out("bad-op"); return 1; }
+  if ((open_homefd = open(".", O_RDONLY)) < 0 || chdir(OPEN_ROOT "/c/w") != 0) { h_out("bad-op"); return 1; }
+  files = strdup(h_arg("files"));
+  for (e = files; okfiles && e && strcmp(files, "-") != 0; e = next) {
+    char *c1, *c2, *star; unsigned char *path, *unit; int64_t pl, ul, rep = 1, r; FILE *f;
+    if ((next = strchr(e, ',')) != NULL) *next++ = 0;
+    if ((c1 = strchr(e, ':')) == NULL) { okfiles = 0; break; }
+    *c1++ = 0;
+    if ((c2 = strchr(c1, ':')) != NULL) *c2 = 0;       /* the plain text behind a gzip stream is the model's business */
+    if ((star = strchr(c1, '*')) != NULL) { *star = 0; rep = strtoll(star + 1, NULL, 10); }
+    path = h_unhex(e, &pl); unit = h_unhex(c1, &ul);
+    if ((int64_t) strlen((char *) path) != pl || !open_mkparents((char *) path) || (f = fopen((char *) path, "wb")) == NULL) okfiles = 0;
+    else {
+      for (r = 0; r < rep; r++) if (ul > 0 && fwrite(unit, 1, (size_t) ul, f) != (size_t) ul) okfiles = 0;
+      if (fclose(f) != 0) okfiles = 0;
+    }
+    free(path); free(unit);
+  }
+  free(files);
+  if (!okfiles) { open_cleanup(); h_out("bad-op"); return 1; }
+  env  = (int) h_argi("env", 0);
+  dirs = h_unhex(h_arg("dirs"), &dl);
+  if (env == 2) setenv(OPEN_ENV, (char *) dirs, 1); else unsetenv(OPEN_ENV);
+  free(dirs);
+  fn = (char *) h_unhex(h_arg("name"), &fl);      /* malloc(strlen + 1): reading past the terminator is a heap overflow */
+  esl_verif_buffer_pagesize  = (int) h_argi("ps", 0);
+  esl_verif_buffer_forcemode = 0;
+  status = esl_buffer_Open(fn, env ? OPEN_ENV : NULL, &bf);
+  free(fn);
+  unsetenv(OPEN_ENV);
+  if (fchdir(open_homefd) != 0) {}
+  close(open_homefd); open_homefd = -1;
+  if (status == eslOK && bf)
+    h_out("ok - n=0 off=%" PRId64 " a=- mode=%s file=%s ps=%d", (int64_t) esl_buffer_GetOffset(bf), open_modename(bf->mode_is),
+          h_hex(bf->filename, bf->filename ? (int64_t) strlen(bf->filename) : 0), (int) bf->pagesize);
+  else if (bf) {
+    h_out("%s bf=1 msg=%d unset=%d", h_status(status), bf->errmsg[0] != 0,
+          bf->mem == NULL && bf->fp == NULL && bf->n == 0 && bf->mode_is == eslBUFFER_UNSET);
+    esl_buffer_Close(bf); bf = NULL;
+  }
+  else h_out("%s bf=0", h_status(status));
+  return 1;
+}
+/* END round4-open */
+
 static void h_op(void)
 {
   const char *op = h_words[0];
@@ -230,6 +338,7 @@ static void h_op(void)
 
   if (g_skip) { h_out("skipped"); return; }
   if (mem_op()) return;   /* round4-mem */
+  if (open_op()) return;   /* round4-open */
   if (!strcmp(op, "open")) {
     const char *mode = h_arg("mode"); unsigned char *tmp; int64_t len;
     if (!mode || !h_arg("hex")) { h_out("bad-op"); return; }
